@@ -251,7 +251,10 @@ def file_location(draw, prof, fmt):
                "z_rotation": draw(st.floats(-3, 3)), "scaling": draw(st.floats(0.1, 10))}
     env = None
     if draw(st.booleans()) and prof["time_of_day"] and prof["weather"] and prof["underground"]:
-        env = {"time": [draw(st.integers(0, 23)), draw(st.integers(0, 59))],
+        hi = (24, 60) if prof.get("time_bounds") else (23, 59)   # Time documents hours 0-24, minutes 0-60
+        bound = (lambda h: st.one_of(st.integers(0, h), st.just(h))) if prof.get("time_bounds") else (
+            lambda h: st.integers(0, h))
+        env = {"time": [draw(bound(hi[0])), draw(bound(hi[1]))],
                "time_of_day": draw(st.sampled_from(prof["time_of_day"])),
                "weather": draw(st.sampled_from(prof["weather"])),
                "underground": draw(st.sampled_from(prof["underground"]))}
